@@ -576,8 +576,8 @@ lawful bijection: both round trips, and the points returned by the `…_and_log_
 theorem gen_scan_lawful {X C : Type} {s : JaxTr.Scan X C ℝ} {D E : Set X} (h : ChainLawful s.bijection.layers D E) :
     s.toBij.Lawful D E := JaxTrProofs.scan_lawful h
 
-/-- non-vacuity: `Scan` of the stacked layers `Affine(1, −2)`, `Affine(1/2, 4)` is lawful ℝ ↔ ℝ; and its inverse really runs
-the layers in reverse order (value at a concrete point). -/
+/-- non-vacuity: `Scan` of the stacked layers `Affine(1, −2)`, `Affine(1/2, 4)` is lawful ℝ ↔ ℝ (the reverse order of the inverse
+pass is made visible at a concrete point by `C08.gen_scan_instance`). -/
 theorem gen_scan_lawful_instance {C : Type} :
     (JaxTr.scanOfLayers [((Affine.mk 1 (-2) : Affine ℝ).toBij : Bij ℝ C ℝ), (Affine.mk (1/2) 4 : Affine ℝ).toBij]).toBij.Lawful
       univ univ :=
